@@ -22,6 +22,7 @@ VARIABLES tid, l,
   run,          \* 1 or 2 (after a crash)
   st, try, lvl, \* mirror of the table rows: st[u] in {"none","todo","in_progress","done","error","skipped"}
   req,          \* req[r][u]: page requests for URL u received in run r
+  n416,         \* n416[u]: requests for URL u of the resumed run that the server refused with 416 (--continue, Range)
   vreq,         \* vreq[u]: requests (any) issued by the current visit of item u
   vtry,         \* vtry[u]: try count of item u when its current visit began
   robotsDone,   \* robotsDone[h]: a robots.txt answer (200, 404, ...) of host h has been delivered
@@ -30,7 +31,7 @@ VARIABLES tid, l,
   mayreq, mayreqNF, expected,   \* reference sets of this trace's site, computed once in MInit
   doneAtCrash, rowsAtCrash, crashed, exited, viol
 
-mvars == <<tid, l, run, st, try, lvl, req, vreq, vtry, robotsDone, robotsAsked, pend, mayreq, mayreqNF, expected,
+mvars == <<tid, l, run, st, try, lvl, req, n416, vreq, vtry, robotsDone, robotsAsked, pend, mayreq, mayreqNF, expected,
            doneAtCrash, rowsAtCrash, crashed, exited, viol>>
 
 S   == Batch[tid]
@@ -117,7 +118,7 @@ Expected(y) == Cardinality({x[1] : x \in {z \in ReachT : y \in Range(Chain(z[1],
 MInit ==
   /\ tid \in 1..NT /\ l = 1 /\ run = 1
   /\ st = [u \in URLs |-> "none"] /\ try = [u \in URLs |-> 0] /\ lvl = [u \in URLs |-> 0]
-  /\ req = [r \in 1..2 |-> [u \in URLs |-> 0]]
+  /\ req = [r \in 1..2 |-> [u \in URLs |-> 0]] /\ n416 = [u \in URLs |-> 0]
   /\ vreq = [u \in URLs |-> 0] /\ vtry = [u \in URLs |-> 0]
   /\ robotsDone = [h \in Hosts |-> FALSE] /\ robotsAsked = [h \in Hosts |-> 0]
   /\ pend = <<>>
@@ -180,7 +181,9 @@ ExitViol(e) ==
        ELSE IF \E u \in URLs : st[u] \notin {"none", "done", "skipped"} THEN 54
        \* C03: the resumed run itself requests a URL more often than a crawl does (a database damaged by the kill,
        \* e.g. one that stores the same URL twice); sites whose answers never fail only
-       ELSE IF \E u \in URLs : S.kind[u] \in {"page", "redirect"} /\ req[2][u] > expected[u] THEN 55
+       \* (a request that a Range-honouring server refuses with 416 - the document on disk is complete already - is
+       \* an answer that fails: the request that follows it is a retry, not a second fetch)
+       ELSE IF \E u \in URLs : S.kind[u] \in {"page", "redirect"} /\ req[2][u] > expected[u] + n416[u] THEN 55
        ELSE 0
   ELSE IF \E u \in URLs : st[u] \in {"todo", "in_progress"} THEN 42   \* C18: crawl ended with pending work
   ELSE IF \E u \in URLs : st[u] = "error" /\ O.tries > 0 /\ try[u] < O.tries THEN 43
@@ -226,6 +229,7 @@ MNext ==
                 ELSE vreq
      /\ vtry' = IF e.e = "vbegin" /\ InU(e.u) THEN [vtry EXCEPT ![e.u] = try[e.u]] ELSE vtry
      /\ req' = IF e.e = "req" /\ e.kind # "robots" /\ InU(e.u) THEN [req EXCEPT ![run][e.u] = Cap(@)] ELSE req
+     /\ n416' = IF e.e = "resp" /\ e.cls = "r416" /\ InU(e.u) /\ run = 2 THEN [n416 EXCEPT ![e.u] = Cap(@)] ELSE n416
      /\ UNCHANGED <<pend, mayreq, mayreqNF, expected>>
      /\ robotsDone' = IF e.e = "start" THEN [h \in Hosts |-> FALSE]   \* the pool does not survive a restart
                       ELSE IF e.e = "resp" /\ e.cls \in {"robots200", "robots404"} /\ e.h \in Hosts
